@@ -9,7 +9,8 @@ import netgen as NG
 
 RULE = ("the same hydraulic set-up (same generator seed: topology, capacities, hydraulic parameters, hydrological forcing) is "
         "built under 2-3 different pollutant configurations (different pollutant lists and orders, concentrations, loads, "
-        "treatment parameters) and run in exact arithmetic; every arc flow volume and every store volume of every timestep "
+        "treatment parameters incl. library defaults vs declared; in a third of the cases with hydraulic parameters changed through "
+        "apply_overrides after construction, identically in all configurations) and run in exact arithmetic; every arc flow volume and every store volume of every timestep "
         "must be identical. non-trivial = distinct model with >= 4 nodes")
 SETS = ["simple", "four", "reordered", "one"]
 
@@ -22,8 +23,16 @@ def paired(rep, thorough):
         r0 = random.Random(seed)
         sets = r0.sample(SETS, 3 if thorough else 2)
         base = None
+        with_ov = r0.random() < 0.35
+        strip = r0.random() < 0.4
         for k, ps in enumerate(sets):
-            cfg = NG.gen_model(random.Random(seed), ndates=4, polset=ps, size=size, opts={"polseed": k})
+            cfg = NG.gen_model(random.Random(seed), ndates=4, polset=ps, size=size, opts={"polseed": k, "overrides": with_ov})
+            if strip and k == 1:
+                # "different treatment parameters": this configuration leaves the pollutant treatment of every works to the
+                # library defaults (the hydraulic shares percent_solids and liquor volume stay as declared)
+                for nd in cfg["nodes"]:
+                    if nd["type_"] in ("WWTW", "FWTW"):
+                        nd.pop("process_parameters", None)
             mon, model, err, out = MN.run_cfg(cfg, "exact", pids=())
             vols = [(rec["flows"], rec["stores"]) for rec in mon.records]
             if err:
@@ -59,7 +68,7 @@ def float_pairs(rep, thorough):
     viol = 0
     for seed, size in net_check.gen_cases("net_C20_fpairs", n, 6):
         r0 = random.Random(seed)
-        opts = {"growing": True, "start": r0.choice(NG.STARTS)}
+        opts = {"growing": True, "start": r0.choice(NG.STARTS), "overrides": r0.random() < 0.4}
         size = r0.choice(["land", "full", "land"])
         base = None
         for k, ps in enumerate(["default", r0.choice(["simple", "four"])]):
